@@ -31,7 +31,8 @@ META = {
              'e: 2-3 scales with their own size / chunk size / sharding pa'
              'rameters; faults_all: every request x every fault kind; big_'
              'chunk: 4-9 MiB chunks with short / over-long / error replies'
-             '.'),
+             '.'
+             " Round 12: shards of one scale in different layouts; outdated legacy files beside current .shard files."),
     "trusted_base": ["vlib/httpd.py implements docs/serving-data.rst",
                      "requests/urllib3", "vlib/refs/sharded_spec.py writer"],
     "assumptions": ["loopback TCP works in the sandbox", "server faults are "
